@@ -24,16 +24,18 @@ def nontrivial(case, impl):
 MATCHERS = {}
 
 RULE = ("histories of 1-4 transactions (Db.Update / Db.Batch, fresh or reused MutateContext) over a parent store "
-        "(unique index, set index, nullable fk index with restrict) and a child store, listeners of every "
-        "registration style on both; (a) every body of one operation (16 operations: create/update/delete/"
-        "deleteWhere through either store, incl. child data created over an existing plain parent entity) x one "
+        "(unique index, set index, nullable fk index with restrict, tags map) and two child stores, listeners of every "
+        "registration style on all three; (a) every body of one operation (25 operations: create/update/delete/"
+        "deleteWhere through each store, incl. child data created over an existing parent entity and an entity with data "
+        "in both child stores) x one "
         "failure of every kind (caller error, failing pre-commit action, duplicate, missing fk target, null name, "
         "empty role = bucket name required, 32768-byte role and 32769-byte name = key too large, blank id, existing "
         "id, missing id, referenced entity, veto by an untyped / typed entity constraint on the parent or the child "
         "flow as plain error or RecordNotFoundError, index-stage veto by a custom boltz.Constraint registered with "
         "AddConstraint on the parent or on the child store in ProcessBeforeUpdate / ProcessAfterUpdate / "
         "ProcessBeforeDelete as plain error or RecordNotFoundError, injected FillEntity / PersistEntity error at "
-        "the n-th call, unparsable query) x Update and Batch, exhaustively; thorough tier also every body of two "
+        "the n-th call, a tags map value the typed-bucket setters reject - unsupported type at depth 0/1/2, []string in a "
+        "list, empty / over-long key - with nothing injected, unparsable query) x Update and Batch, exhaustively; thorough tier also every body of two "
         "operations x every position x every kind; (b) sampled bodies of 2-5 operations with one failure at a "
         "random position; (c) random histories incl. nested Update calls, swallowed errors, reused contexts, up to "
         "2 custom index-stage constraints per store. Non-trivial = at least one transaction of the history fails; "
